@@ -35,13 +35,17 @@ CHECK = {
         "accessor energy_deposition<M>(StreamId) is not instantiated in the library; "
         "ActionDiagnostic::clear() is only called after a Stepper exists (its precondition)",
     ],
-    "bounds": {"quick": {"deviations": 2}, "thorough": {"deviations": 2}},
+    "bounds": {"quick": {"deviations": 2, "note": "same depth as thorough (parts[].depth): every "
+                         "'(quick: ...)' restriction in the rule text is lifted"},
+               "thorough": {"deviations": 2}},
     "parts": [
         {"name": "scoring", "harness": "c17_scoring", "flavour": "rel",
          # reads SimpleCalo's per-stream store (its public accessor energy_deposition<M>(StreamId)
          # is a template defined in SimpleCalo.cc without instantiation: not linkable)
          "cflags": ["-fno-access-control"],
-         "shards": {"quick": 16, "thorough": 16}, "deadline": {"quick": 100, "thorough": 1200}},
+         # the thorough configuration lattice costs ~3 s: the quick command runs it too
+         "depth": {"quick": "thorough"},
+         "shards": {"quick": 16, "thorough": 16}, "deadline": {"quick": 300, "thorough": 1200}},
     ],
 }
 META = {
